@@ -2452,6 +2452,23 @@ func genC11(g *G, sc *Scenario, tier string, seed uint64) {
 		}
 		sc.Tasks = append(sc.Tasks, ops)
 	}
+	if g.P(0.08) {
+		// a job over a union of datasets runs incrementally, is posted again with fewer (or more) datasets in its union
+		// and runs again without a reset: the stored token no longer fits, the run has to end with a recorded failure
+		union := func(names ...string) map[string]any {
+			var l []any
+			for _, n := range names {
+				l = append(l, map[string]any{"Name": n})
+			}
+			return map[string]any{"id": "jobU", "title": "title-jobU", "source": map[string]any{"Type": "UnionDatasetSource", "DatasetSources": l}, "sink": map[string]any{"Type": "DatasetSink", "Name": "dD"},
+				"paused": true, "batchSize": float64(g.Range(1, 3)), "triggers": []any{map[string]any{"triggerType": "cron", "jobType": "incremental", "schedule": "@every 8760h"}}}
+		}
+		shapes := [][]string{{"dA", "dB", "dC"}, {"dA", "dB"}, {"dA"}, {"dB", "dA", "dC", "dA"}}
+		a := g.Intn(len(shapes))
+		b := (a + 1 + g.Intn(len(shapes)-1)) % len(shapes)
+		sc.Ops = append(sc.Ops, Op{K: "addJob", M: union(shapes[a]...)})
+		sc.Tasks = append(sc.Tasks, []Op{{K: "runJob", S: "jobU", DS: "incremental"}, {K: "sleep", N: 2300}, {K: "addJob", M: union(shapes[b]...)}, {K: "runJob", S: "jobU", DS: "incremental"}, {K: "sleep", N: 2300}, {K: "status", S: "jobU"}})
+	}
 	sc.Knobs["schedSeed"] = int64(g.r.Uint64() >> 1)
 	sc.Knobs["preemptPct"] = int64(g.PickInt([]int{5, 20, 40}))
 	if !focused && g.P(0.22) {
